@@ -96,7 +96,7 @@ theorem step_length_le (sp : Spec) (w : World) (e : Event) : w.tasks.length ≤ 
           · split
             · exact Nat.le_refl _
             · split
-              · exact Nat.le_refl _
+              · rw [(checkAffected_tasks sp _ t).1]; exact Nat.le_refl _
               · split
                 · exact Nat.le_refl _
                 · simp [setTask_length]
@@ -197,9 +197,10 @@ theorem step_frozen (sp : Spec) (orc : String → Bool) (rk : String → Nat) (h
             split
             · exact ⟨rfl, rfl⟩
             · first
+              | exact checkAffected_tasks sp _ t
               | exact ⟨rfl, rfl⟩
               | (split
-                 · exact ⟨rfl, rfl⟩
+                 · exact checkAffected_tasks sp _ t
                  · rename_i hnc
                    exact absurd hrc hnc)
       | rpcResult t ok =>
